@@ -446,6 +446,8 @@ func (n *ReconcileNode) syncWithAPI(ctx context.Context, node *networkv1beta1.No
 	}
 	node.Status.LastSyncOpenAPITime = metav1.Now()
 
+	// what was read from openAPI only lives in node.Status, if the status update fails the sync must be done again
+	MetaCtx(ctx).StatusChanged.Store(true)
 	MetaCtx(ctx).NeedSyncOpenAPI.Store(false)
 	return nil
 }
